@@ -1,24 +1,24 @@
 SPECIFICATION Spec
 CONSTANTS
-  N = 4
+  N = 3
   Kinds <- K_callables
-  TKs <- TK_core
+  TKs <- TK_chain4
   AllowList = FALSE
   AllowNSkip = FALSE
   AllowVSkip = FALSE
-  AllowReturn = TRUE
+  AllowReturn = FALSE
   AllowMoved = FALSE
   AllowHost = FALSE
   AllowRename = FALSE
   MaxFunctions = 1
-  Stepwise = FALSE
+  Stepwise = TRUE
   AliasRecheck = TRUE
   CallableWalks = 2
   RenameScopeCheck = TRUE
-  COrder = TRUE
-  Orders <- Id4
-  KnownShapes <- Known_c
-  ExportViol = 1
-  ExportOk = 997
-INVARIANT NoUnknownViolation
+  COrder = FALSE
+  Orders <- Id3
+  KnownShapes <- W_fn_alias
+  ExportViol = 0
+  ExportOk = 0
+INVARIANT NoWitness
 CHECK_DEADLOCK FALSE
